@@ -54,6 +54,11 @@ func spool(dst io.Writer, src io.Reader) (int64, []byte, error) {
 	}
 }
 
+// failingReader returns its error to every Read.
+type failingReader struct{ err error }
+
+func (r failingReader) Read(p []byte) (int, error) { return 0, r.err }
+
 type tuple [2]interface{}
 
 func encodePayload(tt []tuple) []byte {
@@ -168,11 +173,13 @@ func (d *ioDelegate) TryCache(h hash.Hash, data []byte) (bool, error) {
 
 		if n, piece, err := spool(f, d.infile); err != nil {
 			if piece == nil {
-				// the input itself could not be read
-				f.Close()
-				os.Remove(f.Name())
-				d.Close()
-				return false, err
+				// The input itself failed. Go on without the cache, on what
+				// was read of it, so that the run writes what it would have
+				// written reading the input directly, and fails where that
+				// would have failed.
+				d.in = io.MultiReader(io.NewSectionReader(f, 0, n), failingReader{err})
+				d.spool = f
+				return false, nil
 			}
 			// There is no room for a copy of the input: go on without the
 			// cache, reading what was spooled, the piece in hand, and then
